@@ -53,6 +53,15 @@ type typeCfg struct {
 	name    string
 	file    string
 	guarded bool // the type owns a mutex protecting its fields
+	free    bool // also classify the package-level functions of the file (rows "<file base>.<func>")
+}
+
+// targetsFW (`-set fw`, output Gen/AliasFW.lean, property C16): the event logger and the state batch of the
+// application framework: which results are views of the receiver / of a PARAMETER (getTreeKey must build the
+// tree key in fresh memory: its parameter is the key slice the caller keeps, cacheDB.commit puts it into the Diff).
+var targetsFW = []typeCfg{
+	{pkg: "pkg/statemachine", name: "EventLogger", file: "event_logger.go"},
+	{pkg: "pkg/framework", name: "stateSMTBatch", file: "state_batch.go", free: true},
 }
 
 var targets = []typeCfg{
@@ -1111,7 +1120,16 @@ func leanStr(s string) string {
 func main() {
 	repo := flag.String("repo", "/repo", "repository root")
 	leandir := flag.String("leandir", "../../lean/LiskVerif/Gen", "directory of the generated Lean file")
+	set := flag.String("set", "", "target set: \"\" = the C20 types (Alias.lean), \"fw\" = framework types of C16 (AliasFW.lean)")
 	flag.Parse()
+	leanName := "Alias"
+	if *set == "fw" {
+		targets = targetsFW
+		leanName = "AliasFW"
+	} else if *set != "" {
+		fmt.Fprintln(os.Stderr, "aliasgen: unknown set", *set)
+		os.Exit(1)
+	}
 	fset := token.NewFileSet()
 	l := &loader{repo: *repo, fset: fset, pkgs: map[string]*pkgData{}, fake: map[string]*types.Package{}}
 	l.std = importer.ForCompiler(fset, "source", nil)
@@ -1130,7 +1148,7 @@ func main() {
 		}
 		for _, d := range f.Decls {
 			fd, ok := d.(*ast.FuncDecl)
-			if !ok || fd.Recv == nil || fd.Body == nil {
+			if !ok || fd.Body == nil || (fd.Recv == nil && !tc.free) {
 				continue
 			}
 			fn, ok := p.info.Defs[fd.Name].(*types.Func)
@@ -1138,13 +1156,18 @@ func main() {
 				continue
 			}
 			sig := fn.Type().(*types.Signature)
-			rt := sig.Recv().Type()
-			if pt, ok := rt.(*types.Pointer); ok {
-				rt = pt.Elem()
-			}
-			named, ok := rt.(*types.Named)
-			if !ok || named.Obj().Name() != tc.name {
-				continue
+			rowName := tc.name + "." + fn.Name()
+			if fd.Recv == nil {
+				rowName = strings.TrimSuffix(tc.file, ".go") + "." + fn.Name()
+			} else {
+				rt := sig.Recv().Type()
+				if pt, ok := rt.(*types.Pointer); ok {
+					rt = pt.Elem()
+				}
+				named, ok := rt.(*types.Named)
+				if !ok || named.Obj().Name() != tc.name {
+					continue
+				}
 			}
 			s := a.summarise(fn)
 			pos := fset.Position(fd.Pos())
@@ -1153,7 +1176,7 @@ func main() {
 				if !carries(t) {
 					continue
 				}
-				r := row{name: tc.name + "." + fn.Name(), result: i, typ: types.TypeString(t, func(p *types.Package) string { return p.Name() }),
+				r := row{name: rowName, result: i, typ: types.TypeString(t, func(p *types.Package) string { return p.Name() }),
 					exported: fn.Exported(), guarded: tc.guarded, file: strings.TrimPrefix(pos.Filename, *repo+"/"), line: pos.Line}
 				if s == nil {
 					r.shallow, r.deep, r.why = "unknown", "unknown", "no summary"
@@ -1176,8 +1199,12 @@ func main() {
 	}
 	var b strings.Builder
 	b.WriteString("/- GENERATED by tools/aliasgen from /repo — do not edit. Regenerated on every check run. -/\n")
-	b.WriteString("import LiskVerif.Model.Alias\n\nnamespace LiskVerif.Gen.Alias\nopen LiskVerif.Alias\n\n")
-	b.WriteString("/-- one row per memory-carrying result of every method of the C20 types: who owns what the caller receives -/\n")
+	b.WriteString("import LiskVerif.Model.Alias\n\nnamespace LiskVerif.Gen." + leanName + "\nopen LiskVerif.Alias\n\n")
+	if *set == "" {
+		b.WriteString("/-- one row per memory-carrying result of every method of the C20 types: who owns what the caller receives -/\n")
+	} else {
+		b.WriteString("/-- one row per memory-carrying result of every method / function of the target set `" + *set + "`: who owns what the caller receives -/\n")
+	}
 	b.WriteString("def table : List Row :=\n  [")
 	for i, r := range rows {
 		if i > 0 {
@@ -1194,8 +1221,8 @@ func main() {
 		}
 		fmt.Fprintf(&b, "(%s, %s)", leanStr(w[0]), leanStr(w[1]))
 	}
-	b.WriteString("]\n\nend LiskVerif.Gen.Alias\n")
-	out := filepath.Join(*leandir, "Alias.lean")
+	b.WriteString("]\n\nend LiskVerif.Gen." + leanName + "\n")
+	out := filepath.Join(*leandir, leanName+".lean")
 	if err := os.WriteFile(out, []byte(b.String()), 0o644); err != nil {
 		fmt.Fprintln(os.Stderr, err)
 		os.Exit(1)
